@@ -104,6 +104,140 @@ Proof.
     + apply IH. intro Hx. discriminate Hx.
 Qed.
 
+Lemma step_at_head : forall pat K X k ps,
+  step_at K pat X = Some (k, ps) -> exists K1, X = skey_of ps :: K1.
+Proof.
+  induction pat as [|[k0 ps0] rest IH]; cbn [step_at]; intros K X k ps H; [discriminate|].
+  destruct (key_eqb X (skey_of ps0 :: K)) eqn:E.
+  - apply key_eqb_eq in E. inversion H; subst. eauto.
+  - eapply IH; exact H.
+Qed.
+
+Lemma step_at_suffix : forall pat K X x,
+  step_at K pat X = Some x -> exists A, X = A ++ K.
+Proof.
+  induction pat as [|[k0 ps0] rest IH]; cbn [step_at]; intros K X x H; [discriminate|].
+  destruct (key_eqb X (skey_of ps0 :: K)) eqn:E.
+  - apply key_eqb_eq in E. subst. exists [skey_of ps0]. reflexivity.
+  - apply IH in H. destruct H as [A ->]. exists (A ++ [skey_of ps0]).
+    rewrite <- app_assoc. reflexivity.
+Qed.
+
+Lemma step_at_app_l : forall p0 tl K X x,
+  step_at K p0 X = Some x -> step_at K (p0 ++ tl) X = Some x.
+Proof.
+  induction p0 as [|[k0 ps0] rest IH]; cbn [step_at app]; intros tl K X x H; [discriminate|].
+  destruct (key_eqb X (skey_of ps0 :: K)); [exact H|]. apply IH. exact H.
+Qed.
+
+Lemma split_on_nonempty : forall c s, split_on c s <> [].
+Proof.
+  intros c s. destruct s as [|x s']; cbn; [discriminate|].
+  destruct (x =? c); [discriminate|].
+  destruct (split_on c s'); discriminate.
+Qed.
+
+Lemma split_url_nonempty : forall u, split_url u <> [].
+Proof.
+  intro u. unfold split_url.
+  destruct (split_on c_slash (trim_url u)) as [|host path] eqn:E.
+  - exfalso. eapply split_on_nonempty; exact E.
+  - destruct (split_on c_dot host) eqn:E2.
+    + exfalso. eapply split_on_nonempty; exact E2.
+    + discriminate.
+Qed.
+
+Lemma classify_wild : forall s, classify s = PWild -> s = star.
+Proof.
+  intros s H. unfold classify in H.
+  destruct (str_eqb s star) eqn:E.
+  - apply str_eqb_eq. exact E.
+  - destruct (is_brace s); discriminate.
+Qed.
+
+(* validateURL: the wildcard can only be the last step *)
+Lemma validate_wild_last : forall parts K X k,
+  validate parts = true ->
+  step_at K (parse_pattern parts) X = Some (k, PWild) ->
+  X = key_from K (parse_pattern parts).
+Proof.
+  induction parts as [|[k0 s0] rest IH]; intros K X k HV HS; [discriminate|].
+  cbn [parse_pattern map fst snd] in *. rewrite key_from_cons.
+  cbn [validate] in HV. apply andb_true_iff in HV. destruct HV as [HV HV2].
+  apply andb_true_iff in HV. destruct HV as [_ HV1].
+  cbn [step_at] in HS.
+  destruct (key_eqb X (skey_of (classify s0) :: K)) eqn:E.
+  - apply key_eqb_eq in E. inversion HS as [[Hk HC]]. apply classify_wild in HC.
+    subst s0. rewrite str_eqb_refl in HV1. cbn in HV1.
+    destruct rest; [|discriminate]. subst X. reflexivity.
+  - eapply IH; eauto.
+Qed.
+
+Lemma key_of_wild_inv : forall p P,
+  key_of p = KWild :: P ->
+  exists p0 k, p = p0 ++ [(k, PWild)] /\ key_of p0 = P.
+Proof.
+  intros p P H. destruct (rev p) as [|[k ps] rp] eqn:E.
+  - apply (f_equal (@rev _)) in E. rewrite rev_involutive in E. subst p.
+    discriminate.
+  - apply (f_equal (@rev _)) in E. rewrite rev_involutive in E. cbn in E. subst p.
+    unfold key_of, key_from in H. rewrite app_nil_r in H.
+    rewrite map_app, rev_app_distr in H. cbn in H.
+    inversion H as [[Hs HP]]. exists (rev rp), k. split.
+    + destruct ps; cbn in Hs; try discriminate. reflexivity.
+    + unfold key_of, key_from. rewrite app_nil_r. reflexivity.
+Qed.
+
+Lemma params_at_app_wild : forall p0 us k rest acc,
+  length us = length p0 ->
+  params_at (p0 ++ [(k, PWild)]) (us ++ rest) acc = params_at p0 us acc.
+Proof.
+  induction p0 as [|[k0 ps0] p0' IH]; intros us k rest acc HL.
+  - destruct us; [|discriminate]. cbn. destruct rest; reflexivity.
+  - destruct us as [|[ku u] us']; [discriminate|]. cbn in HL.
+    destruct ps0; cbn [app params_at].
+    + apply IH. lia.
+    + apply IH. lia.
+    + reflexivity.
+Qed.
+
+Lemma kind_agree_visits : forall p q K X k1 ps1 k2 ps2,
+  kind_agree p q = true ->
+  step_at K p X = Some (k1, ps1) -> step_at K q X = Some (k2, ps2) -> k1 = k2.
+Proof.
+  induction p as [|[ka sa] p' IH]; intros q K X k1 ps1 k2 ps2 HA H1 H2; [discriminate|].
+  destruct q as [|[kb sb] q']; [discriminate|].
+  cbn [step_at] in H1, H2. cbn [kind_agree] in HA.
+  destruct (key_eqb X (skey_of sa :: K)) eqn:E1;
+    destruct (key_eqb X (skey_of sb :: K)) eqn:E2.
+  - apply key_eqb_eq in E1. apply key_eqb_eq in E2. subst X.
+    inversion E2 as [Hs]. rewrite Hs in HA.
+    assert (Hr : skey_eqb (skey_of sb) (skey_of sb) = true)
+      by (apply skey_eqb_eq; reflexivity).
+    rewrite Hr in HA. apply andb_true_iff in HA. destruct HA as [HA _].
+    apply eqb_prop in HA. inversion H1; inversion H2; subst. reflexivity.
+  - apply key_eqb_eq in E1. subst X. apply step_at_longer in H2. cbn in H2. lia.
+  - apply key_eqb_eq in E2. subst X. apply step_at_longer in H1. cbn in H1. lia.
+  - destruct (skey_eqb (skey_of sa) (skey_of sb)) eqn:ES.
+    + apply skey_eqb_eq in ES. rewrite ES in H1.
+      apply andb_true_iff in HA. destruct HA as [_ HA].
+      eapply IH; eauto.
+    + exfalso.
+      pose proof (step_at_suffix _ _ _ _ H1) as [A HA1].
+      pose proof (step_at_suffix _ _ _ _ H2) as [B HB1].
+      rewrite HA1 in HB1.
+      change (A ++ [skey_of sa] ++ K = B ++ [skey_of sb] ++ K) in HB1.
+      rewrite !app_assoc in HB1. apply app_inv_tail in HB1.
+      apply app_inj_tail in HB1. destruct HB1 as [_ HB1].
+      rewrite HB1 in ES.
+      assert (Hr : skey_eqb (skey_of sb) (skey_of sb) = true)
+        by (apply skey_eqb_eq; reflexivity).
+      congruence.
+Qed.
+
+Definition pname_of (ps : pstep) : str :=
+  match ps with PParam nm => nm | _ => [] end.
+
 Section TreeLemmas.
   Context {V : Type}.
   Notation tree := (tree V).
@@ -216,6 +350,92 @@ Section TreeLemmas.
       apply key_eqb_eq in E. subst. exact F.
   Qed.
 
+  (* InsertDeclaredURL, node by node *)
+  Lemma insert_parts_cases : forall (t : tree) parts v t',
+    insert_parts t parts v = Some t' -> parts <> [] ->
+    let p := parse_pattern parts in
+    let K' := key_of p in
+    validate parts = true /\
+    forall X,
+      (step_at [] p X = None /\ X <> K' /\ find_node X t' = find_node X t)
+      \/
+      (exists k ps ni',
+         step_at [] p X = Some (k, ps) /\ find_node X t' = Some ni' /\
+         n_val ni' = (if key_eqb X K' then Some v
+                      else match find_node X t with
+                           | Some ni => n_val ni
+                           | None => None
+                           end) /\
+         ((ps = PWild /\ X = K' /\ n_host ni' = k /\ n_pname ni' = [])
+          \/
+          (ps <> PWild /\
+           exists ni, find_node X t = Some ni /\ n_host ni' = n_host ni /\
+                      n_pname ni' = n_pname ni /\
+                      (forall nm, ps = PParam nm -> n_pname ni = nm))
+          \/
+          (ps <> PWild /\ find_node X t = None /\ n_host ni' = k /\
+           n_pname ni' = pname_of ps))).
+  Proof.
+    intros t parts v t' HI Hne p K'. unfold insert_parts in HI.
+    destruct (validate parts) eqn:HV; [|discriminate]. split; [reflexivity|].
+    fold p in HI.
+    destruct (insert_steps t [] p) as [[t1 K1]|] eqn:HS; [|discriminate].
+    inversion HI; subst t'. clear HI.
+    pose proof (insert_steps_key _ _ _ _ _ HS) as HK. fold (key_of p) in HK.
+    fold K' in HK. subst K1.
+    assert (Hp : p <> []).
+    { unfold p. destruct parts; [contradiction|discriminate]. }
+    destruct (step_at_last p [] Hp) as (kl & psl & HL). fold (key_of p) in HL.
+    fold K' in HL.
+    intro X. rewrite set_val_find. rewrite !(insert_steps_find _ _ _ _ _ HS).
+    rewrite HL.
+    destruct (step_at [] p X) as [[k ps]|] eqn:SX.
+    - right.
+      destruct (key_eqb X K') eqn:EX.
+      + apply key_eqb_eq in EX. subst X. rewrite HL in SX. inversion SX; subst kl psl.
+        destruct ps as [c|nm|]; cbn [after_step].
+        * destruct (find_node K' t) as [ni|] eqn:F.
+          -- eexists k, (PConst c), _. split; [reflexivity|]. split; [reflexivity|].
+             cbn. split; [reflexivity|]. right. left. split; [discriminate|].
+             exists ni. repeat split; auto. intros nm H; discriminate.
+          -- eexists k, (PConst c), _. split; [reflexivity|]. split; [reflexivity|].
+             cbn. split; [reflexivity|]. right. right. split; [discriminate|].
+             repeat split; auto.
+        * destruct (find_node K' t) as [ni|] eqn:F.
+          -- eexists k, (PParam nm), _. split; [reflexivity|]. split; [reflexivity|].
+             cbn. split; [reflexivity|]. right. left. split; [discriminate|].
+             exists ni. repeat split; auto. intros nm' H. inversion H; subst nm'.
+             eapply insert_steps_pname; eauto.
+          -- eexists k, (PParam nm), _. split; [reflexivity|]. split; [reflexivity|].
+             cbn. split; [reflexivity|]. right. right. split; [discriminate|].
+             repeat split; auto.
+        * eexists k, PWild, _. split; [reflexivity|]. split; [reflexivity|].
+          cbn. split; [reflexivity|]. left. repeat split; auto.
+      + assert (HNW : ps <> PWild).
+        { intros ->. apply (validate_wild_last parts [] X k HV) in SX.
+          fold p in SX. fold (key_of p) in SX. fold K' in SX. subst X.
+          rewrite key_eqb_refl in EX. discriminate. }
+        destruct ps as [c|nm|]; cbn [after_step]; [| |contradiction].
+        * destruct (find_node X t) as [ni|] eqn:F.
+          -- eexists k, (PConst c), _. split; [reflexivity|]. split; [reflexivity|].
+             split; [reflexivity|]. right. left. split; [discriminate|].
+             exists ni. repeat split; auto. intros nm H; discriminate.
+          -- eexists k, (PConst c), _. split; [reflexivity|]. split; [reflexivity|].
+             cbn. split; [reflexivity|]. right. right. split; [discriminate|].
+             repeat split; auto.
+        * destruct (find_node X t) as [ni|] eqn:F.
+          -- eexists k, (PParam nm), _. split; [reflexivity|]. split; [reflexivity|].
+             split; [reflexivity|]. right. left. split; [discriminate|].
+             exists ni. repeat split; auto. intros nm' H. inversion H; subst nm'.
+             eapply insert_steps_pname; eauto.
+          -- eexists k, (PParam nm), _. split; [reflexivity|]. split; [reflexivity|].
+             cbn. split; [reflexivity|]. right. right. split; [discriminate|].
+             repeat split; auto.
+    - left. split; [reflexivity|].
+      assert (HN : X <> K') by (intros ->; rewrite HL in SX; discriminate).
+      split; [exact HN|]. apply key_eqb_neq in HN. rewrite HN. reflexivity.
+  Qed.
+
   (* ---------------------------------------------------------------- *)
   (* what a lookup has followed *)
 
@@ -226,13 +446,16 @@ Section TreeLemmas.
 
   (* [follows t X rus]: the node [X] is reached from the root by the parts
      [rus] (reversed: last part first), every step through a constant child
-     equal to the part or through the parametric child, of the part's kind *)
+     equal to the part or — only when there is no such child of the part's
+     kind — through the parametric child, of the part's kind *)
   Fixpoint follows (t : tree) (X : key) (rus : list part) : Prop :=
     match X, rus with
     | [], [] => True
     | s :: X', (k, u) :: rus' =>
         (exists ni, find_node (s :: X') t = Some ni /\ n_host ni = k) /\
-        (s = KConst u \/ s = KParam) /\ follows t X' rus'
+        (s = KConst u \/
+         (s = KParam /\ child_ok t (KConst u :: X') k = None)) /\
+        follows t X' rus'
     | _, _ => False
     end.
 
@@ -354,7 +577,7 @@ Section TreeLemmas.
       + destruct (child_ok t (KParam :: K) k) as [pi|] eqn:C2.
         * apply child_ok_some in C2. destruct C2 as [F2 H2].
           apply IH; auto.
-          -- cbn [follows]. split; [eauto|]. split; [right; reflexivity|exact HF].
+          -- cbn [follows]. split; [eauto|]. split; [right; split; [reflexivity|exact C1]|exact HF].
           -- apply fw_ok_cons. exact HW'.
           -- cbn [params_along]. unfold node_pname. rewrite F2. subst ps.
              reflexivity.
@@ -366,7 +589,7 @@ Section TreeLemmas.
           rewrite <- app_assoc in HW'. exact HW'.
   Qed.
 
-  Lemma walk_no_match : forall parts t K fw ps path,
+  Lemma walk_no_match : forall parts (t : tree) K fw ps path,
     l_match (walk t K parts fw ps path) = false ->
     walk t K parts fw ps path = no_match.
   Proof.
@@ -388,5 +611,277 @@ Section TreeLemmas.
     intros t parts HM. unfold lookup_parts in *.
     pose proof (walk_spec parts t [] [] None [] [] I I eq_refl eq_refl HM) as H.
     rewrite app_nil_r in H. exact H.
+  Qed.
+
+  (* ---------------------------------------------------------------- *)
+  (* a pattern whose nodes carry the pattern's own kinds and names *)
+
+  Definition agrees (t : tree) (K : key) (pat : pattern) : Prop :=
+    forall X k ps, step_at K pat X = Some (k, ps) ->
+      exists ni, find_node X t = Some ni /\ n_host ni = k /\
+                 n_pname ni = pname_of ps.
+
+  Lemma agrees_cons : forall t K k ps rest,
+    agrees t K ((k, ps) :: rest) ->
+    (exists ni, find_node (skey_of ps :: K) t = Some ni /\ n_host ni = k /\
+                n_pname ni = pname_of ps) /\
+    agrees t (skey_of ps :: K) rest.
+  Proof.
+    intros t K k ps rest H. split.
+    - apply H. cbn [step_at]. rewrite key_eqb_refl. reflexivity.
+    - intros X k' ps' HS. apply H. cbn [step_at].
+      destruct (key_eqb X (skey_of ps :: K)) eqn:E; [|exact HS].
+      apply key_eqb_eq in E. subst X. rewrite step_at_self_none in HS. discriminate.
+  Qed.
+
+  Lemma agrees_app_l : forall t K p0 tl,
+    agrees t K (p0 ++ tl) -> agrees t K p0.
+  Proof.
+    intros t K p0 tl H X k ps HS. apply H. apply step_at_app_l. exact HS.
+  Qed.
+
+  Lemma follows_length : forall X t rus, follows t X rus -> length X = length rus.
+  Proof.
+    induction X as [|s X' IH]; intros t [|[k u] rus'] H; cbn in H; try contradiction.
+    - reflexivity.
+    - destruct H as (_ & _ & H). cbn. f_equal. eapply IH; exact H.
+  Qed.
+
+  Lemma follows_param_step : forall A t X' rus,
+    follows t (A ++ KParam :: X') rus ->
+    exists B k u rus',
+      rus = B ++ (k, u) :: rus' /\ length A = length B /\
+      child_ok t (KConst u :: X') k = None /\ follows t X' rus'.
+  Proof.
+    induction A as [|a A IH]; intros t X' [|[k u] rus0] HF; cbn [app follows] in HF;
+      try contradiction.
+    - destruct HF as (_ & Hs & HF). destruct Hs as [Hs|[_ Hs]]; [discriminate|].
+      exists [], k, u, rus0. auto.
+    - destruct HF as (_ & _ & HF). apply IH in HF.
+      destruct HF as (B & k1 & u1 & rus' & -> & HL & HC & HF).
+      exists ((k, u) :: B), k1, u1, rus'. cbn. auto.
+  Qed.
+
+  Lemma follows_drop : forall A B t K rK,
+    length A = length B -> follows t (A ++ K) (B ++ rK) -> follows t K rK.
+  Proof.
+    induction A as [|a A IH]; intros [|[k u] B] t K rK HL HF; cbn in HL;
+      try discriminate.
+    - exact HF.
+    - cbn [app follows] in HF. destruct HF as (_ & _ & HF).
+      eapply IH; [|exact HF]. lia.
+  Qed.
+
+  Lemma follows_matches : forall p t K rK us tail rest,
+    agrees t K p -> length us = length p ->
+    follows t (key_from K p) (rev us ++ rK) ->
+    ((tail = [] /\ rest = []) \/ (exists k, tail = [(k, PWild)])) ->
+    matches (p ++ tail) (us ++ rest) = true.
+  Proof.
+    induction p as [|[k ps] p' IH]; intros t K rK us tail rest HA HL HF HT.
+    - destruct us; [|discriminate]. cbn [app].
+      destruct HT as [[-> ->]|[k ->]]; reflexivity.
+    - destruct us as [|[ku u] us']; [discriminate|]. cbn in HL.
+      apply agrees_cons in HA. destruct HA as [(ni & F & Hh & Hn) HA'].
+      rewrite key_from_cons in HF. cbn [rev] in HF. rewrite <- app_assoc in HF.
+      cbn [app] in HF.
+      assert (HM : matches (p' ++ tail) (us' ++ rest) = true).
+      { eapply IH; eauto. }
+      unfold key_from in HF.
+      apply follows_drop in HF;
+        [|rewrite !rev_length, map_length; lia].
+      cbn [follows] in HF. destruct HF as ((ni' & F' & Hh') & Hs & _).
+      rewrite F in F'. inversion F'; subst ni'.
+      assert (Ek : eqb k ku = true) by (apply eqb_true_iff; congruence).
+      destruct ps as [c|nm|]; cbn [skey_of] in Hs.
+      + destruct Hs as [Hs|[Hs _]]; [|discriminate]. inversion Hs; subst u.
+        cbn. rewrite Ek, str_eqb_refl. exact HM.
+      + cbn. rewrite Ek. exact HM.
+      + destruct Hs as [Hs|[Hs _]]; discriminate.
+  Qed.
+
+  Lemma path_of_render : forall p t K,
+    agrees t K p -> path_of t (key_from K p) = path_of t K ++ render_raw p.
+  Proof.
+    induction p as [|[k ps] p' IH]; intros t K HA.
+    - unfold key_from. cbn. rewrite app_nil_r. reflexivity.
+    - apply agrees_cons in HA. destruct HA as [(ni & F & Hh & Hn) HA'].
+      rewrite key_from_cons, (IH _ _ HA'). cbn [path_of render_raw].
+      unfold node_host, node_pname. rewrite F, Hh.
+      rewrite <- !app_assoc. f_equal. f_equal.
+      destruct ps as [c|nm|]; cbn [skey_of step_text].
+      + reflexivity.
+      + rewrite Hn. cbn [pname_of]. rewrite <- !app_assoc. reflexivity.
+      + reflexivity.
+  Qed.
+
+  Definition wild_free (p : pattern) : Prop :=
+    Forall (fun x => snd x <> PWild) p.
+
+  Lemma follows_wild_free : forall p t K rK us,
+    length us = length p -> follows t (key_from K p) (rev us ++ rK) -> wild_free p.
+  Proof.
+    induction p as [|[k ps] p' IH]; intros t K rK us HL HF.
+    - constructor.
+    - destruct us as [|[ku u] us']; [discriminate|]. cbn in HL.
+      rewrite key_from_cons in HF. cbn [rev] in HF. rewrite <- app_assoc in HF.
+      cbn [app] in HF. constructor.
+      + unfold key_from in HF.
+        apply follows_drop in HF; [|rewrite !rev_length, map_length; lia].
+        cbn [follows] in HF. destruct HF as (_ & Hs & _). cbn [snd].
+        intros ->. destruct Hs as [Hs|[Hs _]]; discriminate.
+      + eapply IH; [|exact HF]. lia.
+  Qed.
+
+  Lemma params_along_at : forall p t K rK us,
+    agrees t K p -> length us = length p -> wild_free p ->
+    Forall (fun u => is_brace (snd u) = false) us ->
+    params_along t (key_from K p) (rev us ++ rK) =
+    params_at p us (params_along t K rK).
+  Proof.
+    induction p as [|[k ps] p' IH]; intros t K rK us HA HL HW HB.
+    - destruct us; [|discriminate]. reflexivity.
+    - destruct us as [|[ku u] us']; [discriminate|]. cbn in HL.
+      apply agrees_cons in HA. destruct HA as [(ni & F & Hh & Hn) HA'].
+      inversion HW as [|? ? Hps HW']; subst. inversion HB as [|? ? Hb HB']; subst.
+      cbn [snd] in Hps, Hb.
+      rewrite key_from_cons. cbn [rev]. rewrite <- app_assoc. cbn [app].
+      rewrite (IH t (skey_of ps :: K) ((ku, u) :: rK) us' HA' ltac:(lia) HW' HB').
+      destruct ps as [c|nm|]; cbn [skey_of params_along params_at] in *.
+      + reflexivity.
+      + rewrite Hb. unfold node_pname. rewrite F, Hn. reflexivity.
+      + contradiction.
+  Qed.
+
+  (* ---------------------------------------------------------------- *)
+  (* conditional completeness: a wildcard-free pattern that matches, whose
+     node holds a value and none of whose parameter steps is shadowed by a
+     literal child of the request part's kind, is the node selected *)
+
+  Fixpoint unshadowed_in (t : tree) (K : key) (p : pattern) (us : list part) : Prop :=
+    match p, us with
+    | (_, ps) :: p', (ku, u) :: us' =>
+        match ps with
+        | PParam _ => child_ok t (KConst u :: K) ku = None
+        | _ => True
+        end /\ unshadowed_in t (skey_of ps :: K) p' us'
+    | _, _ => True
+    end.
+
+  Lemma child_ok_intro : forall (t : tree) X k ni,
+    find_node X t = Some ni -> n_host ni = k -> child_ok t X k = Some ni.
+  Proof.
+    intros t X k ni F H. unfold child_ok. rewrite F, H, eqb_reflx. reflexivity.
+  Qed.
+
+  Lemma key_from_nil : forall K, key_from K [] = K.
+  Proof. reflexivity. Qed.
+
+  Lemma walk_exact : forall p t K us fw ps path,
+    agrees t K p -> wild_free p -> matches p us = true ->
+    unshadowed_in t K p us -> node_val t (key_from K p) <> None ->
+    l_match (walk t K us fw ps path) = true /\
+    l_key (walk t K us fw ps path) = key_from K p.
+  Proof.
+    induction p as [|[k pstp] p' IH]; intros t K us fw ps path HA HW HM HU HV.
+    - destruct us; [|discriminate]. rewrite key_from_nil in *. cbn [walk].
+      destruct (node_val t K); [|contradiction]. split; reflexivity.
+    - apply agrees_cons in HA. destruct HA as [(ni & F & Hh & _) HA'].
+      apply Forall_cons_iff in HW. destruct HW as [Hnw HW']. cbn [snd] in Hnw.
+      rewrite key_from_cons in *.
+      destruct pstp as [c|nm|]; [| |contradiction].
+      + destruct us as [|[ku u] us']; [discriminate|]. cbn [matches] in HM.
+        apply andb_true_iff in HM. destruct HM as [HM HM2].
+        apply andb_true_iff in HM. destruct HM as [HM0 HM1].
+        apply eqb_prop in HM0. apply str_eqb_eq in HM1. subst ku u.
+        cbn [unshadowed_in] in HU. destruct HU as [_ HU].
+        cbn [walk skey_of] in *. rewrite (child_ok_intro _ _ _ _ F Hh).
+        apply IH; auto.
+      + destruct us as [|[ku u] us']; [discriminate|]. cbn [matches] in HM.
+        apply andb_true_iff in HM. destruct HM as [HM0 HM2].
+        apply eqb_prop in HM0. subst ku.
+        cbn [unshadowed_in] in HU. destruct HU as [HU0 HU].
+        cbn [walk skey_of] in *. rewrite HU0.
+        rewrite (child_ok_intro _ _ _ _ F Hh).
+        apply IH; auto.
+  Qed.
+
+  (* ---------------------------------------------------------------- *)
+  (* Lookup depends only on which nodes exist, their kind, their parameter
+     name and whether they hold a value *)
+
+  Definition info_equiv (a b : option ninfo) : Prop :=
+    match a, b with
+    | None, None => True
+    | Some x, Some y =>
+        n_host x = n_host y /\ n_pname x = n_pname y /\
+        (n_val x = None <-> n_val y = None)
+    | _, _ => False
+    end.
+
+  Definition tree_equiv (t t' : tree) : Prop :=
+    forall X, info_equiv (find_node X t) (find_node X t').
+
+  Lemma note_wild_equiv : forall t t' K path ps fw,
+    tree_equiv t t' -> note_wild t K path ps fw = note_wild t' K path ps fw.
+  Proof.
+    intros t t' K path ps fw HE. unfold note_wild.
+    specialize (HE (KWild :: K)). unfold info_equiv in HE.
+    destruct (find_node (KWild :: K) t) as [a|], (find_node (KWild :: K) t') as [b|];
+      try contradiction; [|reflexivity].
+    destruct HE as (-> & _). reflexivity.
+  Qed.
+
+  Lemma child_ok_equiv : forall t t' X k,
+    tree_equiv t t' ->
+    match child_ok t X k, child_ok t' X k with
+    | Some a, Some b => n_pname a = n_pname b
+    | None, None => True
+    | _, _ => False
+    end.
+  Proof.
+    intros t t' X k HE. unfold child_ok.
+    specialize (HE X). unfold info_equiv in HE.
+    destruct (find_node X t) as [a|], (find_node X t') as [b|]; try contradiction; auto.
+    destruct HE as (Hh & Hn & _). rewrite Hh.
+    destruct (eqb (n_host b) k); auto.
+  Qed.
+
+  Lemma node_val_equiv : forall t t' X,
+    tree_equiv t t' -> (node_val t X = None <-> node_val t' X = None).
+  Proof.
+    intros t t' X HE. unfold node_val. specialize (HE X). unfold info_equiv in HE.
+    destruct (find_node X t) as [a|], (find_node X t') as [b|]; try contradiction.
+    - tauto.
+    - tauto.
+  Qed.
+
+  Definition same_hit (r r' : lres V) : Prop :=
+    l_match r = l_match r' /\ l_key r = l_key r' /\
+    l_params r = l_params r' /\ l_norm r = l_norm r'.
+
+  Lemma walk_equiv : forall parts t t' K fw ps path,
+    tree_equiv t t' ->
+    same_hit (walk t K parts fw ps path) (walk t' K parts fw ps path).
+  Proof.
+    induction parts as [|[k s] rest IH]; intros t t' K fw ps path HE; cbn [walk].
+    - pose proof (node_val_equiv t t' K HE) as HV.
+      rewrite (note_wild_equiv t t' K path ps fw HE).
+      destruct (node_val t K) as [v|], (node_val t' K) as [v'|].
+      + repeat split.
+      + exfalso. destruct HV as [_ HV]. specialize (HV eq_refl). discriminate.
+      + exfalso. destruct HV as [HV _]. specialize (HV eq_refl). discriminate.
+      + destruct (note_wild t' K path ps fw) as [[[W wpath] wps]|]; repeat split.
+    - rewrite (note_wild_equiv t t' K path ps fw HE).
+      pose proof (child_ok_equiv t t' (KConst s :: K) k HE) as H1.
+      pose proof (child_ok_equiv t t' (KParam :: K) k HE) as H2.
+      destruct (child_ok t (KConst s :: K) k), (child_ok t' (KConst s :: K) k);
+        try contradiction.
+      + apply IH. exact HE.
+      + destruct (child_ok t (KParam :: K) k), (child_ok t' (KParam :: K) k);
+          try contradiction.
+        * rewrite H2. apply IH. exact HE.
+        * destruct (is_brace s); [repeat split|].
+          destruct (note_wild t' K path ps fw) as [[[W wpath] wps]|]; repeat split.
   Qed.
 End TreeLemmas.
